@@ -153,7 +153,10 @@ def worktree(k):
 
 def apply(wt, m):
     p = os.path.join(wt, "odata_query", m["file"])
-    b = open(os.path.join(REPO, "odata_query", m["file"]), "rb").read()
+    # the byte offsets refer to the file as it was when the mutants were generated: the worktree's own (restored) copy, not /repo's working tree,
+    # which may have moved on since (a `fix:` commit in the meantime must not corrupt the remaining mutants)
+    restore(wt)
+    b = open(p, "rb").read()
     open(p, "wb").write(b[:m["start"]] + m["repl"].encode("utf-8") + b[m["end"]:])
 
 
